@@ -126,7 +126,8 @@ SPEC = {
              'idempotence; no duplicate (type, operands) up to order for symmetric types; no two non-input gates '
              'with equal reference table; no negation of a negation / no buffer as operand or output under the '
              'stated pre-conditions); for every pipeline: result == applying the constituent passes one after '
-             'another (Circuit.__eq__). Non-trivial: the pass / pipeline changes the circuit.'),
+             'another (Circuit.__eq__). Non-trivial: the pass / pipeline changes the circuit.'
+             " Added during the build: as C03, plus a harness-defined visibly non-idempotent pass whose object may be listed twice, and the last constituent pass's post-condition applied to the result of the whole pipeline."),
     'assumptions': ['reference truth tables and reachability from vlib/refsem.py'],
     'subs': [Sub('effects', lambda tier: simp.cases(tier, user_passes=True), check_effects, {'quick': 3000, 'thorough': 200000})],
     'required_classes': {'effects': ['pass:RRG', 'pass:RRG+rm', 'pass:MU', 'pass:MDG', 'pass:MEG', 'top:pipe',
